@@ -801,15 +801,22 @@ func changeTimelineTimescale(inSTL *m.SegmentTimelineType, oldTimescale, newTime
 	}
 	o := m.SegmentTimelineType{}
 	o.S = make([]*m.S, 0, len(inSTL.S))
+	// Only the first S element is certain to carry t. Every output element gets an explicit t
+	// derived from the exact running time, so that rounded durations do not accumulate.
+	var t uint64
 	for _, s := range inSTL.S {
+		if s.T != nil {
+			t = *s.T
+		}
 		outS := m.S{
-			T: m.Ptr(round(*s.T)),
+			T: m.Ptr(round(t)),
 			N: nil,
 			D: round(s.D),
 			R: s.R,
 			K: nil,
 		}
 		o.S = append(o.S, &outS)
+		t += s.D * uint64(s.R+1)
 	}
 	return &o
 }
